@@ -29,6 +29,7 @@ import (
 	"io/fs"
 	"os"
 	"path/filepath"
+	"reflect"
 	"sort"
 	"strings"
 	"sync"
@@ -392,6 +393,7 @@ const (
 	vfC14Write
 	vfC14WriteLoad
 	vfC14WriteAtLoad
+	vfC14Find // SearchRecord + HasKey of a present name: queries are transitions too (they may keep state)
 )
 
 var vfC14DelNames = []string{"DeleteRecord", "DeleteRecordWithRebalancing", "DeleteRecordLazy"}
@@ -429,6 +431,8 @@ func (c *vfC14Cfg) opString(o vfC14Op) string {
 		return "WriteToFile;LoadFromFile"
 	case vfC14WriteAtLoad:
 		return "WriteAt;LoadFromFile"
+	case vfC14Find:
+		return fmt.Sprintf("SearchRecord+HasKey(%q)", c.names[o.N])
 	}
 	return "?"
 }
@@ -517,7 +521,44 @@ func vfC14Canon(bt *WritableBTreeV2) string {
 		incr = "incr=set"
 	}
 	return vfKitJoin(vfC14Persistent(bt), "root="+vfKitAddrClass(bt.header.RootNodeAddr),
-		"lh="+vfKitAddrClass(bt.loadedHeaderAddress), "ll="+vfKitAddrClass(bt.loadedLeafAddress), lazy, incr)
+		"lh="+vfKitAddrClass(bt.loadedHeaderAddress), "ll="+vfKitAddrClass(bt.loadedLeafAddress), lazy, incr, vfC14OtherFields(bt))
+}
+
+// vfC14CanonKnown is the canonical form without the fields the harness does not know by name:
+// what a read-only call must leave alone (a cache a query keeps for itself is not content).
+func vfC14CanonKnown(bt *WritableBTreeV2) string {
+	c := vfC14Canon(bt)
+	if i := strings.LastIndex(c, "other{"); i >= 0 {
+		return c[:i]
+	}
+	return c
+}
+
+// vfC14OtherFields renders every field of the object that the hand-written canonical form
+// above does not know (by name), so that a field added to the implementation becomes part of
+// the explored state instead of being merged away.
+func vfC14OtherFields(bt *WritableBTreeV2) string {
+	known := map[string]bool{"header": true, "leaf": true, "records": true, "nodeSize": true, "loadedHeaderAddress": true,
+		"loadedLeafAddress": true, "lazyMu": true, "lazyState": true, "incrementalRebalancer": true}
+	v := reflect.ValueOf(bt).Elem()
+	var sb strings.Builder
+	for i := 0; i < v.NumField(); i++ {
+		n := v.Type().Field(i).Name
+		if known[n] {
+			continue
+		}
+		f := v.Field(i)
+		switch f.Kind() {
+		case reflect.Bool, reflect.Int, reflect.Int8, reflect.Int16, reflect.Int32, reflect.Int64,
+			reflect.Uint, reflect.Uint8, reflect.Uint16, reflect.Uint32, reflect.Uint64, reflect.String, reflect.Float32, reflect.Float64:
+			fmt.Fprintf(&sb, "%s=%v;", n, reflect.NewAt(f.Type(), f.Addr().UnsafePointer()).Elem().Interface())
+		case reflect.Ptr, reflect.Map, reflect.Slice, reflect.Interface:
+			fmt.Fprintf(&sb, "%s=nil:%v;", n, f.IsNil())
+		default:
+			fmt.Fprintf(&sb, "%s=<%s>;", n, f.Kind())
+		}
+	}
+	return "other{" + sb.String() + "}"
 }
 
 func (c *vfC14Ctx) modelString() string {
@@ -583,6 +624,11 @@ func (c *vfC14Ctx) enabled() []vfC14Op {
 			}
 		}
 	}
+	for n := range cfg.names {
+		if _, present := c.model[n]; present {
+			ops = append(ops, vfC14Op{K: vfC14Find, N: uint16(n)})
+		}
+	}
 	ops = append(ops, vfC14Op{K: vfC14LazyOn}, vfC14Op{K: vfC14LazyOff}, vfC14Op{K: vfC14Force})
 	if c.bt.lazyState != nil {
 		ops = append(ops, vfC14Op{K: vfC14ClockPast})
@@ -637,6 +683,16 @@ func (c *vfC14Ctx) apply(o vfC14Op) (fails []vfC14Fail) {
 			c.outcome = "insert:ok(hash-equal name present)"
 		}
 		c.model[n] = id
+	case vfC14Find:
+		// a query of a present name: it must find the name (the value is compared with the
+		// model by the per-state invariant); whatever it leaves behind in the object is part of
+		// the state the search continues from
+		if _, ok := bt.SearchRecord(name); !ok || !bt.HasKey(name) {
+			c.outcome = "find:present-name-not-found"
+			fail("present-name-not-found@SearchRecord", nil)
+			return
+		}
+		c.outcome = "find:ok"
 	case vfC14Upd:
 		id := cfg.ids[o.I]
 		if err := bt.UpdateRecord(name, id); err != nil {
@@ -862,7 +918,7 @@ func (c *vfC14Ctx) checkState(opClass string, lastName int, probe []int) (fails 
 	}
 	// 4. every present name found with its latest id, no absent one found; read-only calls
 	//    leave the state alone
-	pre := vfC14Canon(bt)
+	pre := vfC14CanonKnown(bt)
 	for _, n := range probe {
 		name := cfg.names[n]
 		id, present := c.model[n]
@@ -907,7 +963,7 @@ func (c *vfC14Ctx) checkState(opClass string, lastName int, probe []int) (fails 
 			}
 		}
 	}
-	if post := vfC14Canon(bt); post != pre {
+	if post := vfC14CanonKnown(bt); post != pre {
 		fail("readonly-call-changed-state@SearchRecord/HasKey", map[string]any{"before": pre, "after": post})
 	}
 	return fails
